@@ -448,7 +448,7 @@ func (e *Engine) onlyKnownClass(vc *VC, o *Obligation, kf *KnownFinding, cfg Sol
 	text := e.script(vc, &o2, []*Term{Not(cls)}, nil)
 	file := filepath.Join(cfg.TmpDir, "known-"+safeName(o.Name+o.Case)+".smt2")
 	os.WriteFile(file, []byte(text), 0o644)
-	for _, s := range []string{"z3-new", "cvc5", "z3"} {
+	for _, s := range []string{"z3-new-inc", "z3-new", "cvc5", "z3"} {
 		r, _, _ := runSolver(s, file, cfg.TimeoutS)
 		if r == "unsat" {
 			return true
